@@ -165,6 +165,13 @@ theorem sameLen_valsSpec {V : Type} (n : Num V) (k : Nat) (fs : List (Frac2 V)) 
     intro r hr
     exact valsSpec_length n (k + 1) fs r hr
 
+theorem atleast2d_valsSpec {V : Type} (n : Num V) (k : Nat) (fs : List (Frac2 V)) :
+    atleast2d (valsSpec n k fs) = valsSpec n k fs := by
+  match fs with
+  | [] => rfl
+  | [_] => rfl
+  | _ :: _ :: _ => rfl
+
 theorem sel_valsSpec {V : Type} (n : Num V) (k : Nat) (fs : List (Frac2 V)) :
     mapE (selRow [1, 2, 3, 4]) (valsSpec n k fs)
       = .ok (fs.map (fun f => [f.a.1, f.a.2, f.b.1, f.b.2])) := by
